@@ -1491,8 +1491,11 @@ PENDING_FINDINGS = {
         '(destroy P) (_apply_annotations_param_callback sets destroy_param.scope unconditionally; with the two '
         'parameters in the other order the explicit scope wins)',
 }
-for _shape in ('enum', 'object', 'record'):
-    for _ann in ('nullable', 'allow-none', 'transfer/none', 'transfer/full'):
+# (transfer none|full) is only judged invalid on a by-value enum/flags: on a by-value struct or object the
+# oracle stays 'outside' (the transformer's own message lists struct and object types as valid sites)
+for _shape, _anns in (('enum', ('nullable', 'allow-none', 'transfer/none', 'transfer/full')),
+                      ('object', ('nullable', 'allow-none')), ('record', ('nullable', 'allow-none'))):
+    for _ann in _anns:
         PENDING_FINDINGS['by-value-%s-accepts-%s' % (_shape, _ann)] = _BYVAL % (_ann.replace('/', ' '), _shape)
 
 
@@ -1599,7 +1602,7 @@ def finding_class(key):
     its exact key, so a new kind of failure is never absorbed by a pending finding)"""
     m = re.match(r'(invalid-no-warning|invalid-changes-output):(nullable|allow-none|transfer/none|transfer/full):'
                  r'(param|ret|inst):(enum|object|record):0:(in|ret)$', key)
-    if m:
+    if m and 'by-value-%s-accepts-%s' % (m.group(4), m.group(2)) in PENDING_FINDINGS:
         return 'by-value-%s-accepts-%s' % (m.group(4), m.group(2))
     m = re.match(r'valid-not-reflected:(nullable|allow-none):(param|ret):aliasbasic:[12]:(in|ret):nullable$', key)
     if m:
@@ -1940,6 +1943,7 @@ def run(ctx):
         'exhaustive': (not ctx.quick()),
         'exhaustive_table_cases': n_table,
         'pending_findings': sorted(PENDING_FINDINGS),
+        'proposed_merged_keys': MERGED_KEYS,
     })
     ctx.assumptions.extend([
         'the C lexer/parser is not exercised: declarations enter as the symbol stream the lexer would deliver',
